@@ -65,8 +65,16 @@ def make_world(book, touch=False):
     from mc.worlds.catalog import World
     from mc.worlds.kit import Ctx
 
-    asks, bids = book_rows(book, 0 if touch else 1, 0 if touch else 1)
-    bk = {"C1": dict(kind="CALL", strike=2000, mark=float(MARK["C1"]), asks=asks, bids=bids),
+    if touch == "dyadic":
+        # binary-exact prices so that a level can sit EXACTLY on mark x cap (cap 2): mark 1/32, levels at 1/16 and 1/64
+        a, b = book
+        asks = [[0.032, float(a[0])]] + ([[0.0625, float(a[1])]] if len(a) > 1 else []) + ([[0.07, float(a[2])]] if len(a) > 2 else [])
+        bids = [[0.03, float(b[0])]] + ([[0.015625, float(b[1])]] if len(b) > 1 else []) + ([[0.01, float(b[2])]] if len(b) > 2 else [])
+        c1_mark = 0.03125
+    else:
+        asks, bids = book_rows(book, 0 if touch else 1, 0 if touch else 1)
+        c1_mark = float(MARK["C1"])
+    bk = {"C1": dict(kind="CALL", strike=2000, mark=c1_mark, asks=asks, bids=bids),
           "P1": dict(kind="PUT", strike=1900, mark=float(MARK["P1"]), asks=[[0.03, 2.0], [0.0305, 1.0]], bids=[[0.029, 4.0]])}
     data = db.std_frame(2, books=bk, mark_drift=0.0)
     prices = db.price_frame(data)
@@ -84,6 +92,7 @@ def make_world(book, touch=False):
     w = World("deribit", build, ((),), {"deribit.data": data, "prices": prices})
     w.db = db
     w.bk = bk
+    w.marks = {"C1": Decimal(str(c1_mark)), "P1": MARK["P1"]}
     return w
 
 
@@ -107,7 +116,7 @@ def r6(fr: Fraction) -> Fraction:
     return F(d)
 
 
-def ref_fill(md, ins, side, amt: Decimal, mode, mark):
+def ref_fill(md, ins, side, amt: Decimal, mode, mark, inclusive=False):
     """-> (fills [(price, size)], n) or None when the model says the order cannot be filled as the property demands."""
     if ins not in md["book"] or amt < 1:
         return None
@@ -117,9 +126,9 @@ def ref_fill(md, ins, side, amt: Decimal, mode, mark):
     if mode[0] == "cap":
         mult = F(Decimal(mode[1]))
         if side == "buy":
-            idx = [i for i in idx if levels[i][0] < mult * F(mark)]
+            idx = [i for i in idx if levels[i][0] < mult * F(mark) or (inclusive and levels[i][0] == mult * F(mark))]
         else:
-            idx = [i for i in idx if levels[i][0] > F(mark) / mult]
+            idx = [i for i in idx if levels[i][0] > F(mark) / mult or (inclusive and levels[i][0] == F(mark) / mult)]
     if mode[0] == "limit":
         j = mode[1]
         if j >= len(levels) or j not in idx:
@@ -195,7 +204,7 @@ def alphabet(world, amounts):
                 c.last = {"side": side, "ins": ins, "amt": Decimal(amt), "mode": mode}
                 return (m.buy if side == "buy" else m.sell)(ins, Decimal(amt), **kw)
             return call
-        modes = [("market",), ("limit", 0, "token"), ("limit", 1, "token"), ("limit", 0, "usd"), ("cap", "1.011"), ("cap", "1.5"), ("cap", "3")]
+        modes = [("market",), ("limit", 0, "token"), ("limit", 1, "token"), ("limit", 0, "usd"), ("cap", "1.011"), ("cap", "1.5"), ("cap", "2"), ("cap", "3")]
         for side in ("buy", "sell"):
             for amt in amounts:
                 for mode in modes:
@@ -262,8 +271,17 @@ class Oracle:
             md["cash"] = Fraction(2, 100)
         elif side in ("buy", "sell"):
             ins, amt, mode = info["ins"], info["amt"], info["mode"]
-            mark = MARK.get(ins, Decimal(0))
+            mark = self.world.marks.get(ins, Decimal(0))
             rf = ref_fill(md, ins, side, amt, mode, mark)
+            if mode[0] == "cap" and out.ok:
+                # a level exactly ON mark x cap may be read as inside or outside the cap; the implementation has to be consistent with ONE reading
+                alt = ref_fill(md, ins, side, amt, mode, mark, inclusive=True)
+                if alt != rf and alt is not None:
+                    orders = out.ret[0]
+                    got = [(F(Decimal(o.price)), F(Decimal(o.amount))) for o in orders if Decimal(o.amount) != 0]
+                    if got == [(p, s_) for p, s_, _ in alt[0]]:
+                        rf = alt
+                        part.count("on_cap_level_read_as_inside")
             held = md["pos"].get(ins, {}).get("amount", Fraction(0))
             n = F(round_amount(amt)) if amt >= 1 else None
             part.count(f"{side}.{'acc' if out.ok else 'rej'}")
@@ -350,7 +368,7 @@ class Oracle:
                                    {"label": op.label, "instrument": ins, "impl": impl, "model": ref})
                     return self.resync(ctx)
         bal = m.get_market_balance()
-        eq = md["cash"] + sum((q["amount"] * F(MARK[k]) for k, q in md["pos"].items()), Fraction(0))
+        eq = md["cash"] + sum((q["amount"] * F(self.world.marks[k]) for k, q in md["pos"].items()), Fraction(0))
         if abs(F(bal.net_value) - eq) > tol or abs(F(bal.balance) - md["cash"]) > tol or abs(F(bal.premium) - (eq - md["cash"])) > tol:
             part.violation(f"C15|equity|{op.kind}", "equity != cash + positions at mark", case, {"label": op.label, "impl": str(bal.net_value), "model": float(eq)})
 
@@ -375,6 +393,7 @@ def main(run: Run):
     bks = books(run.thorough)
     jobs = [(run.seed, b, False, depth, max_dev, amounts) for b in bks]
     jobs += [(run.seed, b, True, depth, max_dev, amounts) for b in bks if len(b[0]) >= 1 and len(b[1]) >= 1][:: (1 if run.thorough else 3)]
+    jobs += [(run.seed, b, "dyadic", depth, max_dev, amounts) for b in (((5, 2), (5, 2)), ((2, 5, 1), (1, 5)), ((1, 1), (2, 2, 2)))]
     jobs = run.rotate(jobs)
     tot = {"states": 0, "transitions": 0, "complete": 0, "distinct_outcomes": 0, "accepted": 0, "rejected": 0}
     for r in pmap(run_partition, jobs):
@@ -393,7 +412,9 @@ def main(run: Run):
     }
     return run.finish(cov, ["books satisfy bids <= mark <= asks, sorted best-first as Deribit delivers them",
                             "amount rounding: below 1 contract is a rejection, otherwise ROUND_HALF_UP to whole contracts (ETH)",
-                            "an order that the visible book can fill exactly, with cash / holding sufficient, is expected to be accepted"])
+                            "an order that the visible book can fill exactly, with cash / holding sufficient, is expected to be accepted",
+                            "a level exactly on mark x cap may count as inside or outside the cap, but fills, cash and position must agree with one reading "
+                            "(dyadic books put levels exactly on the cap)"])
 
 
 def replay(run: Run, path):
